@@ -328,6 +328,9 @@ def server_scenarios(rng, eng, msgs, n, tier):
             wscript = []
             for _ in range(r.range(1, 30)):
                 wscript.append(r.choice([1, 2, 3, 7, 20, 1000]) if r.chance(3, 4) else "p")
+        if r.chance(1, 3):
+            # handlers that are not ready at once: they yield, or take 1 ms ... an hour of (virtual) time
+            ans_tok = [f"Z {hx(r.choice([0, 0, 1, 9000, 11000, 61000, 3601000]))} " + a for a in ans_tok]
         case = f"SV g {rs(chunks)} {ws(wscript)} {len(ans_tok)} " + " ".join(ans_tok)
         good = nreq if bad is None else pos
         calls = [f"[{q[2]}]" for q in reqs[:good]]
@@ -357,6 +360,30 @@ def server_scenarios(rng, eng, msgs, n, tier):
         chunks = [stream] if r.chance(1, 2) else random_chunking(r, stream)
         case = f"SV g {rs(chunks)} {ws([])} {len(frames)} " + " ".join("A " + a[0][2:] for a in answers)
         out.append((case, ("ret", xb(b"".join(a[1] for a in answers))), "retransmission", len(frames)))
+    # while the handler works on a request, part of the NEXT request arrives, the stream then has nothing for a moment, and the
+    # rest arrives after the handler is done: no octet of it may be lost, whatever the server does while it waits for the handler
+    for k in range(30 if tier == "quick" else 1500):
+        r = rng.fork(f"slowpart{k}")
+        reqs = [msgs[r.below(len(msgs))] for _ in range(3)]
+        answers = [msgs[r.below(len(msgs))] for _ in range(3)]
+        f2 = reqs[1][1]
+        cut = [1, 3, 4, 5, 19, 20, 21, len(f2) - 1, len(f2) // 2][k % 9]
+        cut = max(1, min(cut, len(f2) - 1))
+        chunks = [reqs[0][1] + f2[:cut], "p", f2[cut:] + reqs[2][1]] if k % 2 == 0 else [reqs[0][1] + f2[:cut], "p", "p", f2[cut:], "p", reqs[2][1]]
+        z = [0, 1, 11000][(k // 9) % 3]
+        case = f"SV g {rs(chunks)} {ws([])} 3 " + " ".join(f"Z {hx(z)} A " + a[0][2:] for a in answers)
+        exp = "SV closed CALLS 3" + "".join(f" [{q[2]}]" for q in reqs) + f" WRITTEN {xb(b''.join(a[1] for a in answers))}"
+        out.append((case, exp, "slow-handler-partial-next", 3))
+    # an answer that cannot be encoded AFTER a lot of it could (70 000 / 200 000 octets of AVPs, then a Time in 2040): nothing
+    # of it may reach the stream, the connection ends, the earlier answers stand
+    for k, n in enumerate([70000, 200000]):
+        r = rng.fork(f"bigbad{k}")
+        reqs = [msgs[r.below(len(msgs))] for _ in range(3)]
+        small = [msgs[r.below(len(msgs))] for _ in range(2)]
+        ans_tok = ["A " + small[0][0][2:], f"A g NEW 110 4 0 1 2 2 ADDAVP 3f3 - 0 L octz {hx(n)} ADDAVP 3f4 - 0 L time 83aa7e80", "A " + small[1][0][2:]]
+        case = f"SV g {rs([b''.join(q[1] for q in reqs)])} {ws([])} 3 " + " ".join(ans_tok)
+        exp = "SV failed CALLS 2" + "".join(f" [{q[2]}]" for q in reqs[:2]) + f" WRITTEN {xb(small[0][1])}"
+        out.append((case, exp, "big-unencodable-answer", 3))
     # long pipelines: far more request octets in flight than any per-connection buffer a server might keep (8 KiB, 64 KiB),
     # delivered in chunks that do not respect request boundaries
     for k, (nreq, csize) in enumerate([(150, 512), (150, 4096), (300, 8192), (120, 100000), (200, 777)] if tier == "quick" else
